@@ -47,6 +47,8 @@ func cmdRun(argv []string) {
 	maxSteps := fs.Int("max-steps", 0, "max steps per path")
 	known := fs.String("known", "", "comma separated enabled known-finding exclusions")
 	timeout := fs.Int("solver-timeout-ms", 60000, "per query timeout")
+	solver := fs.String("solver", "", "one-shot back end: cvc5-int|cvc5|z3-new")
+	verbose := fs.Bool("v", false, "print init problems")
 	cpuprof := fs.String("cpuprofile", "", "write cpu profile")
 	fs.Parse(argv)
 	if *cpuprof != "" {
@@ -81,8 +83,10 @@ func cmdRun(argv []string) {
 	}
 	defer pool.Close()
 	fmt.Fprintf(os.Stderr, "pool ready in %.1fs; init problems: %d\n", time.Since(t1).Seconds(), len(pool.InitProblems))
-	for _, p := range pool.InitProblems {
-		fmt.Fprintln(os.Stderr, "  init:", p)
+	if *verbose {
+		for _, p := range pool.InitProblems {
+			fmt.Fprintln(os.Stderr, "  init:", p)
+		}
 	}
 	var iargs []int
 	if *args != "" {
@@ -95,7 +99,7 @@ func cmdRun(argv []string) {
 			iargs = append(iargs, n)
 		}
 	}
-	cfg := interp.RunConfig{Harness: *hname, Args: iargs, Trace: *trace, MaxPaths: *maxPaths, MaxSteps: *maxSteps, Known: map[string]bool{}}
+	cfg := interp.RunConfig{Harness: *hname, Args: iargs, Trace: *trace, MaxPaths: *maxPaths, MaxSteps: *maxSteps, Known: map[string]bool{}, Solver: *solver, TimeoutMs: *timeout}
 	for _, k := range strings.Split(*known, ",") {
 		if k != "" {
 			cfg.Known[k] = true
